@@ -1,0 +1,12 @@
+//go:build verif
+
+package common
+
+// C05-run (agent AA), tag c05ri: in the Run methods RunSetup is executed in place (its body, with the helper contracts of
+// zz_contracts_c05r_verif.go), so that the `isTransaction` function value each Run passes is the real one and nothing about
+// RunSetup is assumed there. Its own contract is verified under tag c05rs (config C05-run.json).
+
+/*@
+func (Precompile).RunSetup
+    inline
+@*/
